@@ -37,12 +37,63 @@ EXPLANATION = (
     "copy must be guarded by a scan for all 34 characters that need escaping). R4 the serializer's type switch is exhaustive, doubles are "
     "formatted through a round-trip-safe precision (up to 17 significant digits, exit only on a strtod round-trip), never std::to_string, "
     "non-finite values never reach the formatter, and the result always re-parses as a Double. R5 every parser loop advances the cursor.")
+# exempt from the function-inventory guard (report.py): these rules hold for, or look into, functions they have never seen — and every clause of
+# them that recognises a construct by its shape inside one region refuses (unless_moved) when that region calls a json.hpp function it does not follow
+FOLLOWS_HELPERS = {
+    "C13-R1": "universal and interprocedural: every JsonParser method, old or new, is a node of the cursor program (pre/post summaries at each call)",
+    "C13-R2": "the depth clause counts through every parser method (ghost count with callee summaries) or, for a passed-down parameter, checks each hop; "
+              "the limit clauses refuse when the test or the growth site is not in the function they look at",
+    "C13-R3": "the serializer table is evaluated exactly per byte through the helpers it calls; the \\u clause follows the arm into the helper that "
+              "receives the string; the remaining per-arm clauses refuse when the arm calls a function they do not look into",
+    "C13-R4": "the object-key clause judges every piece appended by _serializeObject and by each helper that receives its output string; the arm and "
+              "formatter clauses refuse when their region calls a function they do not look into",
+    "C13-R5": "universal: every loop of every JsonParser method must advance the cursor, wherever the loop lives",
+    "C13-R6": "dataflow from the literal's view into every json.hpp function that receives it (work-list over call arguments)",
+}
 NOT_DECIDED = ["agreement with a reference decoder for all texts (only the table/arithmetic/bounds conditions above)", "strtod/from_chars accuracy",
                "duplicate-key policy (last wins, by std::map assignment)", "pretty-printing/whitespace placement", "UTF-8 validity of raw (unescaped) bytes"]
 
 
 def jp(ctx, name):
     return ctx.fb().func(JP + "::" + name, file_suffix=JF)
+
+
+def is_false_return(fb, e):
+    """`return false`, or `return helper(…)` where the helper (a function of json.hpp) returns the constant false on every path — the
+    error-reporting helper (`return _fail("…")`) a refactoring puts in place of `_error = "…"; return false;`"""
+    if e.kind != "stmt" or e.node.get("k") != "ret" or not isinstance(e.node.get("v"), dict):
+        return False
+    v = strip_casts(e.node["v"])
+    if const_value(v) is not None:
+        return const_value(v) == 0
+    if v.get("k") in ("call", "mcall") and (v.get("callee") or "").startswith((JP + "::", JS + "::")):
+        gs = [g for g in fb.funcs(v["callee"], JF) if g.ok]
+        rets = [x for g in gs for x in g.stmts() if x.node.get("k") == "ret" and "root" in x.raw]
+        return len(gs) == 1 and bool(rets) and all(isinstance(x.node.get("v"), dict) and const_value(strip_casts(x.node["v"])) == 0 for x in rets)
+    return False
+
+
+def family_calls(elems, allowed=()):
+    """functions defined in json.hpp (members of JsonParser / Json) that the given elements call, other than those named in `allowed`"""
+    out = []
+    for e in elems:
+        if e.kind == "stmt" and e.node.get("k") in ("call", "mcall"):
+            c = e.node.get("callee") or ""
+            if c.startswith((JP + "::", JS + "::")) and last(c) not in allowed and last(c) not in out:
+                out.append(last(c))
+    return out
+
+
+def unless_moved(cond, elems, allowed, what):
+    """A clause that recognises a construct by its shape inside one region (a switch arm, a function body) can tell 'present' from 'absent' only
+    while the region does everything itself.  When the shape test fails and the region calls a json.hpp function the clause does not look into,
+    the construct may simply live there: the clause refuses (exit 2) instead of reporting.  When the region calls nothing of the kind, a failed
+    test is a real absence and stays a violation."""
+    if not cond:
+        hs = family_calls(elems, allowed)
+        if hs:
+            raise AnalysisBroken("%s: not judged — the code there calls %s, which this clause does not look into (the construct may have moved)" % (what, ", ".join(hs)))
+    return cond
 
 
 def parser_methods(ctx):
@@ -221,6 +272,205 @@ def r1(ctx, r):
     r.note("summaries: " + "; ".join("%s pre>=%s post(true)>=%s" % (last(f.name), show_form(prog.pre[f]), show_form(prog.post_true[f])) for f in funcs))
 
 
+def counter_step(n, is_counter):
+    """what the expression node `n` itself does to the counter designated by is_counter(node): an int for a constant step (`++c`, `c--`, `c += 2`,
+    `c = c - 1`), "other" for any other write (or its address being taken), None when n is no write to it"""
+    def isc(x):
+        x = strip_casts(x) if isinstance(x, dict) else None
+        return x is not None and bool(is_counter(x))
+    k = n.get("k")
+    if k == "un" and isc(n.get("v")):
+        op = n.get("op", "")
+        return 1 if "++" in op else -1 if "--" in op else "other" if op == "&" else None
+    if k == "bin" and is_assign(n) and isc(n.get("lhs")):
+        cv = const_value(strip_casts(n["rhs"]))
+        if n["op"] in ("+=", "-=") and cv is not None:
+            return cv if n["op"] == "+=" else -cv
+        x = strip_casts(n["rhs"])
+        if n["op"] == "=" and x.get("k") == "bin" and x.get("op") in ("+", "-"):
+            lc, rc = const_value(strip_casts(x["lhs"])), const_value(strip_casts(x["rhs"]))
+            if isc(x["lhs"]) and rc is not None:
+                return rc if x["op"] == "+" else -rc
+            if x["op"] == "+" and isc(x["rhs"]) and lc is not None:
+                return lc
+        return "other"
+    return None
+
+
+COUNT_CAP = 9       # |ghost count| saturates here: a loop that keeps stepping the counter terminates the analysis and is still reported as non-zero
+
+
+def depth_counter_balance(ctx, r, pv, F):
+    """The nesting depth lives in the JsonParser member F (one counter for all activations).  Two things make it *the nesting depth*:
+    (1) bounded recursion — on every path from _parseValue's entry to a recursive _parseValue call the counter has been stepped up, net, by >= 1;
+    (2) balance — on every path from _parseValue's entry to a successful return the steps cancel exactly (a ghost count of the `++`/`--` along the
+        path, through the container parsers and any helper, is 0).  A successful path that leaves the counter raised leaks one level of depthMax per
+        value of that shape: a flat, valid text with enough of them is rejected with 'depth exceeded' (or, lowered, the limit stops bounding the stack).
+    Decided by a forward ghost-count dataflow per function (state: set of possible net steps since entry) with callee summaries; the recursion head
+    _parseValue is assumed balanced at its recursive call sites and then shown to be (induction over the recursion depth).  Failing returns
+    (`return false`) are not constrained: the parse is abandoned."""
+    from ..cfg import Forward
+    fb = ctx.fb()
+    funcs = parser_methods(ctx)
+    fam = {}
+    for f in funcs:
+        fam.setdefault(f.name, []).append(f)
+    isF = lambda x: x.get("k") == "member" and field_of(x) == F
+    fname = last(F)
+    # every occurrence of the counter is a constant step, or a read inside an arithmetic / comparison expression
+    steps = {}
+    for f in fb.functions:
+        if not f.ok:
+            continue
+        mine = f in funcs
+        st = {}
+        for e in f.stmts():
+            c = counter_step(e.node, isF)
+            if c == "other" or (c is not None and not mine):
+                raise AnalysisBroken("%s writes the depth counter %s in a way the ghost count cannot follow (`%s`)" % (short(f.name), fname, show(e.node)[:60]))
+            if c is not None:
+                st[(e.block.id, e.idx)] = c
+        for n in f.nodes.values():
+            if n.get("k") == "member" and n.get("n") == F:
+                pid, p = f.parent.get(n["id"]), None
+                while pid is not None:
+                    p = f.nodes[pid]
+                    if p.get("k") != "cast":
+                        break
+                    pid, p = f.parent.get(pid), None
+                if p is not None and p.get("k") not in ("un", "bin"):
+                    raise AnalysisBroken("%s hands the depth counter %s to `%s`: it may be changed where the ghost count does not look" % (short(f.name), fname, show(p)[:60]))
+        steps[f] = st
+    # initial value: constructor initialiser / default member initialiser
+    inits = [e for c in fb.methods_of(JP) if c.kind == "ctor" and c.ok for e in c.elems() if e.kind == "init" and e.raw.get("field") == F]
+    r.instance()
+    if not inits:
+        raise AnalysisBroken("no initialiser of the depth counter %s found in the JsonParser constructors" % fname)
+    def init_const(x):
+        """constant of `= 0`, `{0}`, `{}` (value-initialised), `(0)`"""
+        while isinstance(x, dict) and x.get("k") == "ilist" and len(x.get("vals", [])) == 1:
+            x = x["vals"][0]
+        if isinstance(x, dict) and x.get("k") == "ilist" and not x.get("vals"):
+            return 0
+        return const_value(strip_casts(x)) if isinstance(x, dict) else None
+    iv = [init_const(e.raw.get("v")) for e in inits]
+    if any(v is None for v in iv):
+        raise AnalysisBroken("the initial value of the depth counter %s is not a constant" % fname)
+    r.expect(all(v == 0 for v in iv), pv, inits[0].raw.get("l"), "depth counter start", "the depth counter %s starts at %s, not 0: texts nested within depthMax are rejected (or the limit is exceeded) by that amount" % (fname, iv),
+             okdesc="%s starts at 0" % fname)
+
+    def fam_callee(n):
+        if n.get("k") in ("mcall", "call") and n.get("callee") in fam:
+            if len(fam[n["callee"]]) != 1:
+                raise AnalysisBroken("overloaded parser method %s" % n["callee"])
+            return fam[n["callee"]][0]
+        return None
+    # functions through which the counter can change: those that step it, and their (transitive) callers inside the parser
+    R = {f for f in funcs if steps[f]}
+    ch = True
+    while ch:
+        ch = False
+        for f in funcs:
+            if f not in R and any(fam_callee(e.node) in R for e in f.stmts()):
+                R.add(f)
+                ch = True
+
+    def bump(st, ds):
+        return frozenset(max(-COUNT_CAP, min(COUNT_CAP, x + d)) for x in st for d in ds)
+    summ, active = {}, []
+
+    def summary(g):
+        """({net step at a successful return: [(function, return element)]}, {net step at a recursive _parseValue call: [(function, call element)]}) relative to g's entry"""
+        if g in summ:
+            return summ[g]
+        if g in active:
+            raise AnalysisBroken("recursion among %s that does not pass through _parseValue: the depth ghost count has no induction anchor" % ", ".join(last(x.name) for x in active))
+        active.append(g)
+        sub = {}
+        for e in g.stmts():
+            h = fam_callee(e.node)
+            if h is not None and h is not pv and h in R:
+                sub[(e.block.id, e.idx)] = summary(h)
+
+        def transfer(st, e):
+            if e.kind != "stmt":
+                return st
+            k = (e.block.id, e.idx)
+            if k in steps[g]:
+                return bump(st, [steps[g][k]])
+            if k in sub:
+                return bump(st, list(sub[k][0]) or [0])
+            return st
+        flow = Forward(g, frozenset([0]), transfer, lambda a, b: a | b, eh=False)
+        delta, rec = {}, {}
+        rets = [e for e in g.stmts() if e.node.get("k") == "ret" and "root" in e.raw]
+        for e in rets:
+            v = e.node.get("v") if isinstance(e.node.get("v"), dict) else None
+            if is_false_return(fb, e):
+                continue                                    # `return false` (or an error helper that always returns false): the parse is abandoned
+            st = flow.before(e)
+            if st is None:
+                continue
+            tail = strip_casts(v) if v is not None else None
+            tk = None
+            if tail is not None and tail.get("id") in g.elem_of:
+                te = g.elem_of[tail["id"]]
+                tk = (te.block.id, te.idx) if (te.block.id, te.idx) in sub else None
+            if tk is not None:
+                # `return helper(…)`: the success value (and the count) is the helper's — attribute each total to the helper's own return
+                for c in flow.before(g.elem_of[tail["id"]]) or ():
+                    for d, orig in sub[tk][0].items():
+                        delta.setdefault(max(-COUNT_CAP, min(COUNT_CAP, c + d)), []).extend(orig)
+                continue
+            uncertain = tail is not None and const_value(tail) is None and len(st) > 1
+            if uncertain:
+                # `return ok;` with different counts on different paths: the paths may be exactly the successful / failing ones
+                raise AnalysisBroken("%s returns the variable `%s` with depth counts %s on different paths: success and failure paths are not told apart" % (last(g.name), show(tail)[:30], sorted(st)))
+            for c in st:
+                delta.setdefault(c, []).append((g, e))
+        if (g.raw.get("ret") or "") == "void":
+            st = flow.block_in.get(g.exit)
+            for c in (st or ()):
+                delta.setdefault(c, []).append((g, None))
+        for e in g.stmts():
+            k = (e.block.id, e.idx)
+            if fam_callee(e.node) is pv:
+                for c in flow.before(e) or ():
+                    rec.setdefault(c, []).append((g, e))
+            elif k in sub:
+                for c in flow.before(e) or ():
+                    for d, orig in sub[k][1].items():
+                        rec.setdefault(max(-COUNT_CAP, min(COUNT_CAP, c + d)), []).extend(orig)
+        active.pop()
+        summ[g] = (delta, rec)
+        return summ[g]
+    delta, rec = summary(pv)
+    if not rec:
+        raise AnalysisBroken("no recursive _parseValue call reachable from _parseValue")
+    seen = set()
+    for c, origs in sorted(rec.items()):
+        for (g, e) in origs:
+            if (g.name, e.block.id, e.idx) in seen and c >= 1:
+                continue
+            seen.add((g.name, e.block.id, e.idx))
+            r.instance()
+            r.expect(c >= 1, g, e, "depth not incremented", "%s recurses into _parseValue on a path along which the depth counter %s has been stepped by %+d since _parseValue tested it (must be >= +1, or the depth limit never triggers)"
+                     % (last(g.name), fname, c), okdesc="%s: %s raised by %d before _parseValue" % (last(g.name), fname, c))
+    seen = set()
+    for c, origs in sorted(delta.items(), key=lambda kv: -abs(kv[0])):
+        for (g, e) in origs:
+            key = (g.name, (e.block.id, e.idx) if e is not None else None)
+            if key in seen:
+                continue
+            seen.add(key)
+            r.instance()
+            r.expect(c == 0, g, e if e is not None else g.line, "depth counter unbalanced", "%s returns success on a path along which the depth counter %s has been stepped by %s%+d, net, since _parseValue was entered (the `++`/`--` must cancel "
+                     "exactly on every successful path): each value parsed along that path %s one level of _limits.depthMax for the rest of the document, so a flat, valid text with enough of them is %s"
+                     % (last(g.name), fname, "at least " if abs(c) >= COUNT_CAP else "", c, "permanently consumes" if c > 0 else "gives back", "rejected with a depth error although it is nested far below the limit" if c > 0 else
+                        "parsed with the counter wrapped around / the limit no longer bounding the recursion"),
+                     okdesc="%s: %s balanced at the successful return (line %s)" % (last(g.name), fname, e.line if e is not None else g.endline))
+
+
 def _loop_guard_path(f, app, chk_block):
     """an append element can be reached again from itself without passing the limit check block"""
     return search(f, app, lambda x: x is app, stop=lambda x: x.block is chk_block, eh=False)
@@ -238,36 +488,60 @@ def r2(ctx, r):
         """operator of `what OP _limits.limit` in block b's condition, whichever way round it is written"""
         co = common.cmp_oriented(b.cond, lambda x: limit in show(x)) if b.cond is not None else None
         return co[0] if co and show(strip_casts(co[1])) == what else None
-    chk = [b for b in pv.blocks.values() if limit_test(b, "depth", "depthMax") in (">", ">=")]
+    # The depth is whatever `_parseValue` compares with _limits.depthMax: a parameter handed down the recursion, or a member counter.
+    # Which of the two (and under which name) is read off the comparison, not assumed.
+    chk = []
+    for b in pv.blocks.values():
+        co = common.cmp_oriented(b.cond, lambda x: "depthMax" in show(x)) if b.cond is not None else None
+        if co and co[0] in (">", ">="):
+            chk.append((b, strip_casts(co[1])))
     r.instance()
-    if not r.expect(len(chk) == 1, pv, None, "depth test", "_parseValue no longer compares `depth` with _limits.depthMax", okdesc="_parseValue: depth > depthMax test present"):
+    if not r.expect(unless_moved(len(chk) == 1, [e for e in pv.stmts() if e.node.get("k") != "ret" and not any(e.node is x.node.get("v") or e.node is strip_casts(x.node.get("v") or {}) for x in pv.stmts() if x.node.get("k") == "ret")],
+                                 ("_skipWhitespace",), "depth test"), pv, None, "depth test", "_parseValue no longer compares the nesting depth with _limits.depthMax", okdesc="_parseValue: depth > depthMax test present"):
         return
-    cb = chk[0]
+    cb, carrier = chk[0]
     calls = [e for e in pv.stmts() if e.node.get("k") == "mcall" and e.node.get("callee") in (pa.name, po.name)]
     if len(calls) < 2:
         raise AnalysisBroken("_parseValue: container calls not found")
     for e in calls:
         r.instance()
         r.expect(dominated_by_edge(pv, e, cb, 1, eh=False), pv, e, "unbounded recursion: %s" % last(e.node["callee"]),
-                 "_parseValue reaches %s on a path that does not pass the false edge of `depth > depthMax`: nesting depth (and stack use) is not bounded by the limit" % last(e.node["callee"]),
+                 "_parseValue reaches %s on a path that does not pass the false edge of `%s > depthMax`: nesting depth (and stack use) is not bounded by the limit" % (last(e.node["callee"]), show(carrier)),
                  okdesc="%s behind the depth test" % last(e.node["callee"]))
-        dp = strip_casts(e.node["args"][-1])
-        r.instance()
-        r.expect(dp.get("k") == "var" and dp["n"] == "depth", pv, e, "depth forwarded: %s" % last(e.node["callee"]), "_parseValue does not forward its depth to %s" % last(e.node["callee"]), okdesc="depth forwarded")
     # the true edge returns false without recursing
     r.instance()
     tb = pv.blocks[cb.succs[0]]
-    r.expect(any(e.node.get("k") == "ret" and const_value(strip_casts(e.node.get("v") or {})) == 0 for e in tb.elems if e.kind == "stmt"), pv, None, "depth overflow not an error",
+    r.expect(any(is_false_return(fb, e) for e in tb.elems), pv, None, "depth overflow not an error",
              "exceeding depthMax does not return false", okdesc="depth overflow → return false")
-    for g in (pa, po):
-        rec = [e for e in g.stmts() if e.node.get("k") == "mcall" and e.node.get("callee") == pv.name]
-        if not rec:
-            raise AnalysisBroken("%s: recursive _parseValue call not found" % last(g.name))
-        for e in rec:
-            fm = lin(e.node["args"][-1])
+    pnames = [p.get("n") for p in pv.params]
+    if carrier.get("k") == "var" and carrier["n"] in pnames:
+        # (a) parameter form: every activation has its own copy, so the count is balanced by construction; what has to hold is
+        # that the value travels _parseValue → container parser unchanged and container parser → _parseValue raised by >= 1
+        dname, ip = carrier["n"], pnames.index(carrier["n"])
+        if any(counter_step(e.node, lambda x: x.get("k") == "var" and x["n"] == dname) is not None for e in pv.stmts()):
+            raise AnalysisBroken("_parseValue writes its depth parameter `%s`" % dname)
+        for e in calls:
+            g = pa if e.node["callee"] == pa.name else po
+            ia = [i for i, a in enumerate(e.node["args"]) if strip_casts(a).get("k") == "var" and strip_casts(a)["n"] == dname]
             r.instance()
-            r.expect(fm is not None and list(fm[1]) == ["depth"] and fm[0] >= 1, g, e, "depth not incremented", "%s recurses into _parseValue with depth argument `%s` (must be depth + k, k >= 1, or the depth limit never triggers)"
-                     % (last(g.name), show(e.node["args"][-1])), okdesc="%s: _parseValue(…, depth + %s)" % (last(g.name), fm[0] if fm else "?"))
+            if not r.expect(len(ia) == 1 and ia[0] < len(g.params), pv, e, "depth forwarded: %s" % last(e.node["callee"]), "_parseValue does not forward its depth to %s" % last(e.node["callee"]), okdesc="depth forwarded"):
+                continue
+            gname = g.params[ia[0]].get("n")
+            rec = [x for x in g.stmts() if x.node.get("k") == "mcall" and x.node.get("callee") == pv.name]
+            if not rec:
+                raise AnalysisBroken("%s: recursive _parseValue call not found" % last(g.name))
+            if any(counter_step(x.node, lambda y: y.get("k") == "var" and y["n"] == gname) is not None for x in g.stmts()):
+                raise AnalysisBroken("%s writes its depth parameter `%s`" % (last(g.name), gname))
+            for x in rec:
+                fm = lin(x.node["args"][ip]) if ip < len(x.node["args"]) else None
+                r.instance()
+                r.expect(fm is not None and list(fm[1]) == [gname] and fm[0] >= 1, g, x, "depth not incremented", "%s recurses into _parseValue with depth argument `%s` (must be %s + k, k >= 1, or the depth limit never triggers)"
+                         % (last(g.name), show(x.node["args"][ip]) if ip < len(x.node["args"]) else "?", gname), okdesc="%s: _parseValue(…, %s + %s)" % (last(g.name), gname, fm[0] if fm else "?"))
+    elif carrier.get("k") == "member" and field_of(carrier) and field_of(carrier).startswith(JP + "::"):
+        # (b) member form: one counter shared by all activations
+        depth_counter_balance(ctx, r, pv, field_of(carrier))
+    else:
+        raise AnalysisBroken("_parseValue compares `%s` with depthMax: neither a parameter of _parseValue nor a JsonParser member — the rule cannot tell how the depth is carried" % show(carrier))
     # any other recursion inside the parser family must go through _parseValue
     fam = {f.name: f for f in parser_methods(ctx)}
     for f in fam.values():
@@ -294,6 +568,7 @@ def r2(ctx, r):
         for e in apps:
             r.instance()
             ok = len(cbs) == 1 and limit_test(cbs[0], var + ".size()", limit) in (">=", ">") and dominated_by_edge(g, e, cbs[0], 1, eh=False) and _loop_guard_path(g, e, cbs[0]) is None
+            unless_moved(bool(cbs), list(g.stmts()), ("_parseValue", "_skipWhitespace", "_parseString"), "%s limit test" % limit)
             r.expect(ok, g, e, "growth before limit: %s" % var, "%s grows `%s` on a path (or loop iteration) that does not pass the false edge of `%s.size() >= _limits.%s`" % (last(g.name), var, var, limit),
                      okdesc="%s: %s grows only behind the %s test" % (last(g.name), var, limit))
     # duplicate keys: the later member replaces the earlier one (what RFC 8259 leaves open, every common decoder — and the
@@ -325,7 +600,8 @@ def r2(ctx, r):
             if len(seenb) < 4:
                 work.extend(f_.blocks[bb].succs)
         okf = any(x.kind == "stmt" and x.node.get("k") in ("call", "mcall") and last(x.node.get("callee", "")) in ("strtod", "stod", "_toDouble", "from_chars") for x in els) and \
-            not any(x.kind == "stmt" and x.node.get("k") == "ret" and const_value(strip_casts(x.node.get("v") or {})) == 0 for x in els[:6])
+            not any(is_false_return(fb, x) for x in els[:6])
+    unless_moved(okf, list(pn_(ctx).stmts()), ("_toDouble",), "int64 overflow fallback")
     r.expect(okf, pn_(ctx), None, "integer overflow not decoded", "an integer literal that does not fit std::int64_t (from_chars reports an error) is not converted as a floating-point number: valid texts such as 1e19 written as "
              "10000000000000000000 are rejected or decoded wrongly", okdesc="int64 overflow → floating-point conversion")
     # string length
@@ -338,6 +614,7 @@ def r2(ctx, r):
     for e in apps:
         r.instance()
         ok = len(cbs) == 1 and dominated_by_edge(ps, e, cbs[0], 1, eh=False) and _loop_guard_path(ps, e, cbs[0]) is None
+        unless_moved(bool(cbs), [x for x in ps.stmts() if not any(strip_casts(a).get("n") == "str" for a in x.node.get("args", []))], ("_parseHex4", "_appendUtf8"), "stringLengthMax test")
         r.expect(ok, ps, e, "string growth before limit", "_parseString appends to `str` (%s) on a path or iteration that does not pass the stringLengthMax test" % show(e.node)[:40], okdesc="_parseString: append behind the stringLengthMax test")
 
 
@@ -398,7 +675,7 @@ def r3(ctx, r):
         r.instance()
         val = const_value(strip_casts(apps[0].node["args"][1])) if len(apps) == 1 else None
         want = RFC_ESC.get(cv)
-        r.expect(want is not None and val == want, ps, apps[0] if apps else None, "escape \\%s" % (chr(cv) if cv and 32 < cv < 127 else cv),
+        r.expect(unless_moved(want is not None and val == want, els, (), "escape arm 0x%02x" % (cv or 0)), ps, apps[0] if apps else None, "escape \\%s" % (chr(cv) if cv and 32 < cv < 127 else cv),
                  "_parseString decodes the escape `\\%s` to %s; RFC 8259 §7 defines %s" % (chr(cv) if cv and 32 < cv < 127 else cv, "0x%02x" % val if val is not None else "a non-constant / several appends",
                                                                                        "0x%02x" % want if want is not None else "no such escape"), okdesc="\\%s → 0x%02x" % (chr(cv), val or 0))
         ptable[cv] = val
@@ -407,7 +684,7 @@ def r3(ctx, r):
     r.expect(not missing, ps, None, "escape missing", "_parseString has no arm for the RFC 8259 escapes %s: valid texts are rejected" % ", ".join("\\" + chr(c) for c in missing), okdesc="all 8 single-character escapes have an arm")
     r.instance()
     dels = arm_elems(ps, sw, default_si)[0] if default_si is not None else []
-    r.expect(default_si is not None and any(e.kind == "stmt" and e.node.get("k") == "ret" and const_value(strip_casts(e.node.get("v") or {})) == 0 for e in dels)
+    r.expect(default_si is not None and any(is_false_return(fb, e) for e in dels)
              and not any(e.kind == "stmt" and e.node.get("k") == "opcall" and e.node.get("op") == "+=" for e in dels), ps, None, "unknown escape accepted",
              "an escape letter outside the RFC 8259 table is not rejected", okdesc="unknown escape → error")
     # ---- \u arm
@@ -416,29 +693,56 @@ def r3(ctx, r):
         return
     si, els, blocks = uarm
     hex4 = jp(ctx, "_parseHex4")
-    hcalls = [e for e in els if e.kind == "stmt" and e.node.get("k") == "mcall" and e.node.get("callee") == hex4.name]
-    enc = [e for e in els if e.kind == "stmt" and e.node.get("k") in ("call", "mcall") and last(e.node.get("callee", "")) == "_appendUtf8"]
-    raw_apps = [e for e in els if e.kind == "stmt" and e.node.get("k") == "opcall" and e.node.get("op") == "+=" and strip_casts(e.node["args"][0]).get("n") == "str"]
+    uf, out_name = ps, "str"          # the function that holds the \\u logic, and its name for the string being built
+
+    def fails_false(f, call):
+        """the call is the operand of a two-way branch whose 'call returned false' edge leads straight to `return false`"""
+        c, st, sf = common.branch(call.block)
+        if c is None or c is not call.node or sf is None:
+            return False
+        return any(is_false_return(fb, e) for e in f.blocks[sf].elems)
+    is_hex = lambda e: e.kind == "stmt" and e.node.get("k") == "mcall" and e.node.get("callee") == hex4.name
+    is_enc = lambda e: e.kind == "stmt" and e.node.get("k") in ("call", "mcall") and last(e.node.get("callee", "")) == "_appendUtf8"
+    if not any(is_hex(e) or is_enc(e) for e in els):
+        # the arm's body may have been moved into a helper of the parser that receives the string: follow the call (one level), map the
+        # helper's parameter to `str`, and judge the helper's body as the arm; the call itself must propagate failure
+        fam = {f.name: f for f in parser_methods(ctx)}
+        hc = [(e, i) for e in els if e.kind == "stmt" and e.node.get("k") == "mcall" and e.node.get("callee") in fam and fam[e.node["callee"]] is not ps
+              for i, a in enumerate(e.node.get("args", [])) if strip_casts(a).get("k") == "var" and strip_casts(a)["n"] == "str"]
+        if len(hc) == 1 and hc[0][1] < len(fam[hc[0][0].node["callee"]].params) and "&" in (fam[hc[0][0].node["callee"]].params[hc[0][1]].get("t") or "") \
+                and "const" not in (fam[hc[0][0].node["callee"]].params[hc[0][1]].get("t") or ""):
+            call, ai = hc[0]
+            uf = fam[call.node["callee"]]
+            out_name = uf.params[ai]["n"]
+            r.instance()
+            r.expect(fails_false(ps, call), ps, call, "hex failure ignored", "a failing %s (the \\u decoder) does not make _parseString return false" % last(uf.name), okdesc="%s failure → return false" % last(uf.name))
+            els, blocks = list(uf.elems()), set(uf.blocks)
+    hcalls = [e for e in els if is_hex(e)]
+    enc = [e for e in els if is_enc(e)]
+    raw_apps = [e for e in els if e.kind == "stmt" and e.node.get("k") == "opcall" and e.node.get("op") == "+=" and strip_casts(e.node["args"][0]).get("n") == out_name]
     r.instance()
-    if not r.expect(len(hcalls) == 2 and len(enc) == 1 and not raw_apps, ps, (raw_apps or [None])[0], "\\u decoding shape",
+    if not r.expect(unless_moved(len(hcalls) == 2 and len(enc) == 1 and not raw_apps, els, ("_parseHex4", "_appendUtf8"), "\\u arm"), uf, (raw_apps or [None])[0], "\\u decoding shape",
                     "the \\u arm must read four hex digits (twice for a surrogate pair) and append the UTF-8 encoding of the decoded code point; found %d _parseHex4 calls, %d encoder calls, %d literal appends"
                     % (len(hcalls), len(enc), len(raw_apps)), okdesc="\\u arm: 2 hex reads, one UTF-8 append"):
         return
+    if elem_dom(uf, hcalls[1], hcalls[0]):
+        hcalls.reverse()                 # decoding order, not block numbering
     hi_var = strip_casts(hcalls[0].node["args"][0]).get("n")
     lo_var = strip_casts(hcalls[1].node["args"][0]).get("n")
     cpv = strip_casts(enc[0].node["args"][1]).get("n")
     r.instance()
-    r.expect(cpv == hi_var and elem_dom(ps, hcalls[0], enc[0]), ps, enc[0], "encoded value", "the value appended for \\u is `%s`, not the variable the hex digits were decoded into (`%s`)" % (cpv, hi_var),
+    r.expect(cpv == hi_var and elem_dom(uf, hcalls[0], enc[0]) and strip_casts(enc[0].node["args"][0]).get("n") == out_name, uf, enc[0], "encoded value",
+             "the value appended for \\u is `%s`, not the variable the hex digits were decoded into (`%s`), or it is not appended to the string being built" % (cpv, hi_var),
              okdesc="appended code point is the decoded variable")
+    if uf is not ps:
+        # a helper reports success only after it has appended the code point
+        r.instance()
+        w = search(uf, ("entry",), lambda e: e.kind == "stmt" and e.node.get("k") == "ret" and "root" in e.raw and const_value(strip_casts(e.node.get("v") or {})) != 0, stop=lambda e: e is enc[0], eh=False)
+        r.expect(w is None, uf, enc[0], "\\u decoded to nothing", "%s can return success without having appended the decoded code point (%s)" % (last(uf.name), witness_str(uf, w)), okdesc="%s: success only after the append" % last(uf.name))
     # every hex read that fails returns false
     for h in hcalls:
-        b = h.block
         r.instance()
-        c, st, sf = common.branch(b)
-        ok = c is not None and c is h.node and sf is not None
-        tb = ps.blocks[sf] if ok else None
-        r.expect(ok and any(e.kind == "stmt" and e.node.get("k") == "ret" and const_value(strip_casts(e.node.get("v") or {})) == 0 for e in tb.elems), ps, h, "hex failure ignored",
-                 "a failing _parseHex4 does not make _parseString return false", okdesc="hex failure → return false")
+        r.expect(fails_false(uf, h), uf, h, "hex failure ignored", "a failing _parseHex4 does not make %s return false" % last(uf.name), okdesc="hex failure → return false")
     # hex4: 4 digits, base 16, all consumed
     fc = [e for e in hex4.stmts() if e.node.get("k") == "call" and last(e.node.get("callee", "")) == "from_chars"]
     r.instance()
@@ -451,18 +755,18 @@ def r3(ctx, r):
                     for b in hex4.blocks.values() if b.cond is not None for x in walk(b.cond))
         outp = strip_casts(a[2]).get("parm") is not None or strip_casts(a[2]).get("k") == "var"
         okh = span is not None and span[0] == 4 and base == 16 and cmpok and outp
-    r.expect(okh, hex4, fc[0] if fc else None, "hex digits", "_parseHex4 does not decode exactly four base-16 digits into its out-parameter with a full-consumption test", okdesc="_parseHex4: from_chars(first, first+4, unit, 16), ptr == first+4")
+    r.expect(unless_moved(okh, list(hex4.stmts()), (), "_parseHex4"), hex4, fc[0] if fc else None, "hex digits", "_parseHex4 does not decode exactly four base-16 digits into its out-parameter with a full-consumption test", okdesc="_parseHex4: from_chars(first, first+4, unit, 16), ptr == first+4")
     # pair combination: exact evaluation over the guard-delimited ranges
     comb = [e for e in els if e.kind == "stmt" and assign_parts(e.node) and strip_casts(assign_parts(e.node)[0]).get("n") == cpv
             and any(x.get("k") == "var" and x["n"] == lo_var for x in walk(assign_parts(e.node)[1]))]
     r.instance()
-    if r.expect(len(comb) == 1, ps, None, "surrogate pair not combined", "no assignment combines the two \\u units (`%s`, `%s`) of a surrogate pair into one code point" % (hi_var, lo_var)):
+    if r.expect(len(comb) == 1, uf, None, "surrogate pair not combined", "no assignment combines the two \\u units (`%s`, `%s`) of a surrogate pair into one code point" % (hi_var, lo_var)):
         e = comb[0]
-        facts = dominating_facts(ps, e)
+        facts = dominating_facts(uf, e)
         hlo, hhi = interval_of(facts, hi_var)
         llo, lhi = interval_of(facts, lo_var)
         r.instance()
-        if r.expect((hlo, hhi, llo, lhi) == (0xD800, 0xDBFF, 0xDC00, 0xDFFF), ps, e, "surrogate ranges",
+        if r.expect((hlo, hhi, llo, lhi) == (0xD800, 0xDBFF, 0xDC00, 0xDFFF), uf, e, "surrogate ranges",
                     "the pair combination is guarded by %s in [%s, %s] and %s in [%s, %s]; UTF-16 requires a high surrogate D800–DBFF followed by a low surrogate DC00–DFFF"
                     % (hi_var, hx(hlo), hx(hhi), lo_var, hx(llo), hx(lhi)), okdesc="pair guarded by hi∈[D800,DBFF], lo∈[DC00,DFFF]"):
             try:
@@ -479,15 +783,17 @@ def r3(ctx, r):
                 if bad:
                     break
             r.instance()
-            r.expect(bad is None, ps, e, "surrogate pair arithmetic", "the pair combination `%s` yields U+%X for \\u%04x\\u%04x; UTF-16 defines U+%X (0x10000 + ((hi-0xD800)<<10) + (lo-0xDC00))"
+            r.expect(bad is None, uf, e, "surrogate pair arithmetic", "the pair combination `%s` yields U+%X for \\u%04x\\u%04x; UTF-16 defines U+%X (0x10000 + ((hi-0xD800)<<10) + (lo-0xDC00))"
                      % ((show(assign_parts(e.node)[1]),) + ((bad[2], bad[0], bad[1], bad[3]) if bad else (0, 0, 0, 0))), okdesc="pair combination equals the UTF-16 definition on all 1048576 pairs")
             # no write to the units between their decoding and the combination other than the hex reads
     # lone surrogates rejected before encoding
-    facts = dominating_facts(ps, enc[0])
+    facts = dominating_facts(uf, enc[0])
     r.instance()
-    sur = [b for b in ps.blocks.values() if b.id in blocks and b.cond is not None]
-    okl = surrogate_excluded(ps, enc[0], cpv, blocks)
-    r.expect(okl, ps, enc[0], "surrogate encoded", "a code point in D800–DFFF can reach the UTF-8 encoder (lone or mis-ordered surrogates must be rejected, or the output is not valid UTF-8 and does not round-trip)",
+    sur = [b for b in uf.blocks.values() if b.id in blocks and b.cond is not None]
+    okl = surrogate_excluded(uf, enc[0], cpv, blocks)
+    if not okl and any(x.get("k") in ("call", "mcall") and (x.get("callee") or "").startswith("iora::") and last(x["callee"]) not in ("_parseHex4", "_appendUtf8") and any(strip_casts(a).get("n") == cpv for a in x.get("args", [])) for b in uf.blocks.values() if b.cond is not None for x in walk(b.cond)):
+        raise AnalysisBroken("lone-surrogate rejection: `%s` is tested through a function call the interval analysis does not look into" % cpv)
+    r.expect(okl, uf, enc[0], "surrogate encoded", "a code point in D800–DFFF can reach the UTF-8 encoder (lone or mis-ordered surrogates must be rejected, or the output is not valid UTF-8 and does not round-trip)",
              okdesc="D800–DFFF rejected before encoding")
     r_utf8(ctx, r, jp(ctx, "_appendUtf8"), "cp", "str")
     # ---- serializer table
@@ -578,12 +884,274 @@ def r_utf8(ctx, r, f, var, out):
     r.expect(ok, f, None, "UTF-8 ranges", "the encoder's branches cover %s instead of a partition of U+0…U+10FFFF" % covered, okdesc="encoder branches partition U+0…U+10FFFF")
 
 
+class NotEvaluable(Exception):
+    pass
+
+
+class ByteEval:
+    """Exact evaluation of a character-at-a-time encoder, one input byte at a time: the CFG of the loop body (and of the pure single-character
+    helpers of the same class it calls) is followed for a concrete value of the loop variable — branch conditions, switch labels, locals holding
+    a literal or a formatted buffer — and the pieces appended to the output string are collected.  Nothing of the program runs: this is constant
+    folding of the source's own AST over the 256 possible inputs, so it does not depend on how the table is spelled (one switch, a lookup
+    helper, guard clauses with `continue`, named constants).  Anything outside the fragment (stores through pointers, loops, unknown calls)
+    raises NotEvaluable, which the rule turns into a refusal."""
+
+    def __init__(self, fb, cls, filesuffix):
+        self.fb, self.cls, self.filesuffix = fb, cls, filesuffix
+        self._cc = {}
+
+    def _int(self, n, env):
+        names = sorted(k for k, v in env.items() if isinstance(v, int))
+        key = (id(n), tuple(names))
+        if key not in self._cc:
+            try:
+                self._cc[key] = compile_expr(n, names)[0]
+            except NotPure as ex:
+                raise NotEvaluable("`%s` is not a pure integer expression (%s)" % (show(n)[:50], ex))
+        return self._cc[key](*[env[k] for k in names])
+
+    def value(self, f, n, env):
+        """int | ("lit", text) | None (null pointer)"""
+        x = strip_casts(n)
+        k = x.get("k")
+        if k == "null":
+            return None
+        if k == "str":
+            return ("lit", x.get("v") or "")
+        if k == "var" and x["n"] in env and not isinstance(env[x["n"]], int):
+            return env[x["n"]]
+        if k == "cond" and isinstance(x.get("t"), dict):
+            return self.value(f, x["t"] if self._int(x["c"], env) else x["f"], env)
+        if k in ("call", "mcall") and (x.get("callee") or "").startswith(self.cls + "::"):
+            gs = [g for g in self.fb.funcs(x["callee"], self.filesuffix) if g.ok]
+            args = [a for a in x.get("args", []) if not a.get("def")]
+            if len(gs) != 1 or len(gs[0].params) != len(args):
+                raise NotEvaluable("cannot resolve %s" % x["callee"])
+            return self.run(gs[0], gs[0].entry, {p["n"]: self._narrow(self.value(f, a, env), p.get("t")) for p, a in zip(gs[0].params, args)}, None, set())[1]
+        return self._int(n, env)
+
+    @staticmethod
+    def _narrow(v, t):
+        from ..finite import _ty, WIDTH, SIGNED, _s
+        if not isinstance(v, int):
+            return v
+        t = _ty(t)
+        if t not in WIDTH:
+            raise NotEvaluable("parameter of type %s" % t)
+        return _s(v, WIDTH[t]) if t in SIGNED else v & ((1 << WIDTH[t]) - 1)
+
+    def run(self, f, start, env, outvar, stop_blocks, depth=0):
+        """(list of appended pieces, returned value): follow f from block `start` until a return or a block of stop_blocks"""
+        if depth > 3:
+            raise NotEvaluable("helper nesting too deep")
+        env = dict(env)
+        # named constants of the function (`constexpr unsigned char firstPrintable = 32`)
+        for e in f.stmts():
+            if e.node.get("k") == "decl":
+                for v in e.node["vars"]:
+                    if "const" in (v.get("t") or "") and "*" not in (v.get("t") or "") and isinstance(v.get("init"), dict) and const_value(v["init"]) is not None and v["n"] not in env:
+                        env[v["n"]] = self._narrow(const_value(v["init"]), v.get("t"))
+        out, bid = [], start
+        is_out = lambda x: outvar is not None and isinstance(x, dict) and strip_wrappers(x) is not None and strip_wrappers(x).get("k") == "var" and strip_wrappers(x)["n"] == outvar
+        for _ in range(200):
+            if bid in stop_blocks:
+                return out, None
+            b = f.blocks[bid]
+            for e in b.elems:
+                if e.kind != "stmt" or "root" not in e.raw:
+                    continue
+                n = e.node
+                k = n.get("k")
+                if k == "ret":
+                    return out, (self.value(f, n["v"], env) if isinstance(n.get("v"), dict) else None)
+                if b.cond is not None and (n is b.cond or n.get("id") == b.cond.get("id") or n.get("id") == (b._raw_cond() or {}).get("id")):
+                    continue
+                if k == "decl":
+                    for v in n["vars"]:
+                        i = v.get("init")
+                        if v["n"] in env and isinstance(i, dict) and strip_casts(i).get("k") in ("un", "opcall") and "*" in (strip_casts(i).get("op") or ""):
+                            continue                     # the loop variable itself (`char c = *__begin`): its value is the input
+                        if i is None:
+                            env.pop(v["n"], None)
+                        elif "const" in (v.get("t") or "") and v["n"] in env and const_value(i) is not None:
+                            continue
+                        else:
+                            val = self.value(f, i, env)
+                            env[v["n"]] = self._narrow(val, v.get("t")) if isinstance(val, int) else val
+                    continue
+                if k == "opcall" and n.get("op") == "+=" and is_out(n["args"][0]):
+                    x = strip_casts(n["args"][1])
+                    val = self.value(f, x, env)
+                    if val is None:
+                        raise NotEvaluable("a null pointer is appended")
+                    out.append(bytes([val & 0xFF]) if isinstance(val, int) else val[1].encode("latin-1", "replace"))
+                    continue
+                if k == "mcall" and is_out(n.get("obj")) and last(n.get("callee", "")) in ("push_back", "append") and len(n.get("args", [])) == 1:
+                    val = self.value(f, n["args"][0], env)
+                    if val is None:
+                        raise NotEvaluable("a null pointer is appended")
+                    out.append(bytes([val & 0xFF]) if isinstance(val, int) else val[1].encode("latin-1", "replace"))
+                    continue
+                if k == "call" and last(n.get("callee", "")) in ("snprintf", "sprintf"):
+                    a = n["args"]
+                    sn = last(n["callee"]) == "snprintf"
+                    dst, fmt, rest = strip_casts(a[0]), strip_casts(a[2 if sn else 1]), a[3 if sn else 2:]
+                    if dst.get("k") != "var" or fmt.get("k") != "str":
+                        raise NotEvaluable("snprintf with a non-literal format or computed destination")
+                    import re as _re
+                    specs = _re.findall(r"%[^%]", fmt["v"].replace("%%", ""))
+                    if not _re.fullmatch(r"(?:[^%]|%%|%0?\d*[xXu])*", fmt["v"]) or len(specs) != len(rest):
+                        raise NotEvaluable("format `%s`" % fmt["v"])
+                    text = fmt["v"] % tuple(self._int(x, env) & 0xFFFFFFFF for x in rest)      # int varargs read back as unsigned int
+                    cap = const_value(strip_casts(a[1])) if sn else None
+                    m = _re.match(r"char\s*\[(\d+)\]", dst.get("t") or "")
+                    room = int(m.group(1)) if m else None
+                    if sn and cap is None or (cap is not None and room is not None and cap > room):
+                        raise NotEvaluable("snprintf size argument is not a constant within the buffer")
+                    if cap is None and room is not None and len(text) + 1 > room:
+                        raise NotEvaluable("sprintf overflows its buffer")
+                    env[dst["n"]] = ("lit", text if cap is None else text[:max(cap - 1, 0)])
+                    continue
+                if k in ("bin", "un", "cast", "var", "member", "int", "char", "bool") and not is_assign(n) and not (k == "un" and ("++" in n.get("op", "") or "--" in n.get("op", ""))):
+                    continue                             # a condition fragment evaluated at the terminator
+                raise NotEvaluable("statement `%s` is outside the evaluable fragment" % show(n)[:60])
+            succs = b.succs
+            if b.term and b.term.get("k") == "SwitchStmt" and b.cond is not None:
+                val = self._int(b.cond, env)
+                nxt, dflt = None, None
+                for s_ in succs:
+                    if s_ is None:
+                        continue
+                    labs = f.blocks[s_].raw.get("labels") or ([f.blocks[s_].label] if f.blocks[s_].label else [])
+                    if any(lb and lb.get("k") == "case" and lb.get("v") and const_value(lb["v"]) == val for lb in labs):
+                        nxt = s_
+                    if any(lb and lb.get("k") == "default" for lb in labs) or not labs:
+                        dflt = s_
+                bid = nxt if nxt is not None else dflt
+                if bid is None:
+                    raise NotEvaluable("switch without a matching edge")
+                continue
+            live = [s_ for s_ in succs if s_ is not None]
+            if b.cond is not None and len(succs) == 2:
+                c = strip_casts(b.cond)
+                if c.get("k") == "var" and c["n"] in env and not isinstance(env[c["n"]], int):
+                    truth = env[c["n"]] is not None
+                else:
+                    v_ = self.value(f, b.cond, env)
+                    truth = (v_ is not None) if not isinstance(v_, int) else bool(v_)
+                bid = succs[0] if truth else succs[1]
+                if bid is None:
+                    raise NotEvaluable("branch into a pruned edge")
+                continue
+            if bid == f.exit or not live:
+                return out, None
+            if len(live) != 1:
+                raise NotEvaluable("block B%d: %d successors and no evaluable condition" % (bid, len(live)))
+            bid = live[0]
+        raise NotEvaluable("%s does not come back to the loop head within 200 blocks (an inner loop)" % last(f.name))
+
+
+def out_var_of(f):
+    """the local std::string that every non-literal `return` of f hands back (through a copy/move construction); None if there is no single one"""
+    names = set()
+    for e in f.stmts():
+        if e.node.get("k") == "ret" and "root" in e.raw and isinstance(e.node.get("v"), dict):
+            v = strip_views(e.node["v"])
+            if v is not None and v.get("k") == "var":
+                names.add(v["n"])
+            elif v is not None and v.get("k") == "str":
+                continue
+            else:
+                names.add(None)
+    return names.pop() if len(names) == 1 else None
+
+
+def byte_loop(f):
+    """(loop block, name of the per-character variable, name of the string it ranges over) of the single range-for over a string in f"""
+    loops = [b for b in f.blocks.values() if b.term and b.term.get("k") == "CXXForRangeStmt"]
+    if len(loops) != 1:
+        raise AnalysisBroken("%s: %d range-for loops (the per-character table is built from exactly one)" % (last(f.name), len(loops)))
+    lb = loops[0]
+    body = f.blocks[lb.succs[0]]
+    cv = [v for e in body.elems if e.kind == "stmt" and e.node.get("k") == "decl" for v in e.node["vars"]
+          if isinstance(v.get("init"), dict) and strip_casts(v["init"]).get("k") in ("un", "opcall") and (strip_casts(v["init"]).get("op") or "") == "*" and "__begin" in show(strip_casts(v["init"]))]
+    rng = [strip_casts(v["init"]).get("n") for e in f.stmts() if e.node.get("k") == "decl" for v in e.node["vars"] if v["n"].startswith("__range") and isinstance(v.get("init"), dict) and strip_casts(v["init"]).get("k") == "var"]
+    if len(cv) != 1 or len(rng) != 1 or (cv[0].get("t") or "").replace("const ", "").strip() not in ("char", "unsigned char", "signed char"):
+        raise AnalysisBroken("%s: the range-for does not bind one character of a named string per iteration" % last(f.name))
+    return lb, cv[0], rng[0]
+
+
+def r_escape_exact(ctx, r, es, ptable):
+    """What the serializer emits for each of the 256 possible bytes of a string, computed exactly from the source (ByteEval), against what the
+    parser's own escape table (extracted above) and RFC 8259 §7 decode: the byte must come back.  Either the byte itself — only for >= 0x20 other
+    than '"' and '\\' — or a two-character escape the parser maps to it, or \\u + exactly four hex digits of its value."""
+    fb = ctx.fb()
+    outvar = out_var_of(es)
+    if outvar is None:
+        raise AnalysisBroken("_escapeString: no single local string is returned")
+    lb, cvar, rng = byte_loop(es)
+    param = es.params[0]["n"] if es.params and es.params[0].get("n") else None
+    if rng != param:
+        raise AnalysisBroken("_escapeString: the per-character loop ranges over `%s`, not the parameter" % rng)
+    ev = ByteEval(fb, JS, JF)
+    signed = "unsigned" not in (cvar.get("t") or "")
+    # the loop's increment block(s): predecessors of the loop block that lie inside the loop
+    inside, work = set(), [lb.succs[0]]
+    while work:
+        b_ = work.pop()
+        if b_ in inside or b_ is None or b_ == lb.id:
+            continue
+        inside.add(b_)
+        work.extend(es.blocks[b_].succs)
+    stops = {p for p in lb.preds if p in inside and any(e.kind == "stmt" and e.node.get("k") in ("un", "opcall") and "++" in (e.node.get("op") or "") and "__begin" in show(e.node) for e in es.blocks[p].elems)} | {lb.id}
+    if len(stops) < 2:
+        raise AnalysisBroken("_escapeString: loop increment block not found")
+    bad, raw_ok, esc2, uesc = [], 0, 0, 0
+    leaves = False
+    for v in range(256):
+        try:
+            pieces, ret = ev.run(es, lb.succs[0], {cvar["n"]: (v - 256 if signed and v >= 128 else v)}, outvar, stops)
+        except NotEvaluable as ex:
+            raise AnalysisBroken("_escapeString: the output for the byte 0x%02x cannot be evaluated exactly — %s" % (v, ex))
+        got = b"".join(pieces)
+        if got == bytes([v]) and v >= 0x20 and v not in (0x22, 0x5C):
+            raw_ok += 1
+        elif len(got) == 2 and got[0] == 0x5C and RFC_ESC.get(got[1]) == v and ptable.get(got[1]) == v:
+            esc2 += 1
+        elif len(got) == 6 and got[:2] == b"\\u" and all(ch in b"0123456789abcdefABCDEF" for ch in got[2:]) and int(got[2:], 16) == v and v < 0x80:
+            uesc += 1                                   # (a byte >= 0x80 is part of a UTF-8 sequence: \\u00XX would decode to a different, two-byte character)
+        else:
+            bad.append((v, got))
+    r.instance(256)
+    for _ in range(256 - len(bad)):
+        r.ok()
+    r.note("_escapeString, exact per byte: %d raw, %d two-character escapes, %d \\u00XX" % (raw_ok, esc2, uesc))
+    if bad:
+        v, got = bad[0]
+        dec = "the parser decodes that to 0x%02x" % ptable[got[1]] if len(got) == 2 and got[0] == 0x5C and ptable.get(got[1]) is not None else \
+              "that is the byte itself, which RFC 8259 requires to be escaped" if got == bytes([v]) else "the parser does not decode that to the byte"
+        # the element to point at: where the loop variable (or the piece) is appended if there is one, else the loop
+        r.fail(es, es.blocks[lb.succs[0]].elems[0] if es.blocks[lb.succs[0]].elems else None, "escape of 0x%02x" % v,
+               "_escapeString emits %r for the byte 0x%02x (%s); %d of the 256 byte values do not round-trip, e.g. %s: invalid JSON or a different string after parse(dump(v))"
+               % (got.decode("latin-1"), v, dec, len(bad), ", ".join("0x%02x→%r" % (a, b.decode("latin-1")) for a, b in bad[:4])))
+    return cvar["n"], outvar
+
+
 def r_escape(ctx, r, es, ptable):
-    sw = switch_on(es, "c")
+    # (1) exact: what is emitted for each of the 256 byte values, however the table is spelled (switch, lookup helper, guard clauses)
+    cname, outvar = r_escape_exact(ctx, r, es, ptable)
+    # (2) the table read off the switch, when the escaper itself holds one over its per-character variable (names each arm in a report);
+    #     with the table elsewhere (a lookup helper) clause (1) is the whole verdict for the per-character part
+    sws = [b for b in es.blocks.values() if b.term and b.term.get("k") == "SwitchStmt" and b.cond is not None and strip_casts(b.cond).get("n") == cname]
+    if len(sws) > 1:
+        raise AnalysisBroken("_escapeString: %d switch statements over `%s`" % (len(sws), cname))
+    sw = sws[0] if sws else None
+    if sw is None:
+        r.note("_escapeString holds no switch over `%s`: per-arm clauses replaced by the exact per-byte table" % cname)
     inv = {v: k for k, v in RFC_ESC.items() if k != ord('/')}
     cases = {}
     default_si = None
-    for si in range(len(sw.succs)):
+    for si in (range(len(sw.succs)) if sw is not None else ()):
         lab = sw.edge_label(si)
         if lab == "default":
             default_si = si
@@ -592,7 +1160,7 @@ def r_escape(ctx, r, es, ptable):
             continue
         cv = const_value(lab[1]) & 0xFF
         els, _ = arm_elems(es, sw, si)
-        apps = [e for e in els if e.kind == "stmt" and e.node.get("k") == "opcall" and e.node.get("op") == "+=" and strip_casts(e.node["args"][0]).get("n") == "result"]
+        apps = [e for e in els if e.kind == "stmt" and e.node.get("k") == "opcall" and e.node.get("op") == "+=" and strip_casts(e.node["args"][0]).get("n") == outvar]
         lit = [x.get("v") for x in walk(apps[0].node["args"][1]) if x.get("k") == "str"] if len(apps) == 1 else []
         r.instance()
         ok = len(lit) == 1 and lit[0] is not None and len(lit[0]) == 2 and lit[0][0] == "\\" and ptable.get(ord(lit[0][1])) == cv and RFC_ESC.get(ord(lit[0][1])) == cv
@@ -600,25 +1168,26 @@ def r_escape(ctx, r, es, ptable):
                  % (lit[0] if lit else "?", cv, ("0x%02x" % ptable[ord(lit[0][1])]) if lit and lit[0] and len(lit[0]) == 2 and ptable.get(ord(lit[0][1])) is not None else "nothing / an error"),
                  okdesc="0x%02x → %s" % (cv, lit[0] if lit else "?"))
         cases[cv] = True
-    for must in (ord('"'), ord('\\')):
+    for must in ((ord('"'), ord('\\')) if sw is not None else ()):
         r.instance()
         r.expect(must in cases, es, None, "unescaped %s" % chr(must), "_escapeString has no arm for %r: the output is not valid JSON" % chr(must), okdesc="%r has an arm" % chr(must))
     # every other way input bytes reach the output
     param = es.params[0]["n"] if es.params and es.params[0].get("n") else "str"
-    loopvars = {v["n"] for e in es.stmts() if e.node.get("k") == "decl" for v in e.node["vars"] if v["n"] == "c"}
     for e in es.stmts():
         n = e.node
-        is_app = (n.get("k") == "opcall" and n.get("op") in ("+=", "+") and any(strip_casts(strip_wrappers(a)).get("n") in (param, "c") for a in n["args"])) or \
-                 (n.get("k") == "mcall" and last(n.get("callee", "")) in ("append", "push_back", "insert", "assign") and any(strip_casts(strip_wrappers(a)).get("n") in (param, "c") or param + "." in show(a) for a in n.get("args", []))) or \
+        is_app = (n.get("k") == "opcall" and n.get("op") in ("+=", "+") and any(strip_casts(strip_wrappers(a)).get("n") in (param, cname) for a in n["args"])) or \
+                 (n.get("k") == "mcall" and last(n.get("callee", "")) in ("append", "push_back", "insert", "assign") and any(strip_casts(strip_wrappers(a)).get("n") in (param, cname) or param + "." in show(a) for a in n.get("args", []))) or \
                  (n.get("k") == "ctor" and n.get("cls") == "std::basic_string" and any(strip_casts(strip_wrappers(a)).get("n") == param for a in n.get("args", [])))
         if not is_app:
             continue
-        src = [strip_casts(strip_wrappers(a)).get("n") for a in n.get("args", []) if strip_casts(strip_wrappers(a)).get("n") in (param, "c")]
+        src = [strip_casts(strip_wrappers(a)).get("n") for a in n.get("args", []) if strip_casts(strip_wrappers(a)).get("n") in (param, cname)]
         r.instance()
-        if src == ["c"] or (len(src) == 1 and src[0] == "c"):
+        if src == [cname] and sw is None:
+            r.ok("raw copy of `%s`: judged per byte by the exact table" % cname)
+        elif src == [cname]:
             # raw character: only on the default edge and behind the control-character test
             ctl = [b for b in es.blocks.values() if b.cond is not None and common.cmp_parts(b.cond) and common.cmp_parts(b.cond)[0] in ("<", "<=")
-                   and strip_casts(common.cmp_parts(b.cond)[1]).get("n") == "c" and const_value(common.cmp_parts(b.cond)[2]) is not None]
+                   and strip_casts(common.cmp_parts(b.cond)[1]).get("n") == cname and const_value(common.cmp_parts(b.cond)[2]) is not None]
             okc = False
             for b in ctl:
                 op, l, rr = common.cmp_parts(b.cond)
@@ -648,9 +1217,13 @@ def r_escape(ctx, r, es, ptable):
                                 okb = True
                             else:
                                 why = "the scan `%s` looks for %d of the 34 characters that need escaping; missing e.g. %s" % (show(a)[:60], len(MUST_ESCAPE & have), ", ".join("0x%02x" % m for m in miss[:4]))
+            if not okb and any(x.get("k") in ("call", "mcall") and (x.get("callee") or "").startswith("iora::") and any(strip_casts(strip_wrappers(a)).get("n") == param for a in x.get("args", [])) for (c, truth) in dominating_facts(es, e) for x in walk(c)):
+                raise AnalysisBroken("_escapeString: a bulk copy of the input is guarded by a call on `%s` that the scan clause does not look into" % param)
             r.expect(okb, es, e, "bulk copy of the input", "_escapeString copies the whole input string to the output (%s) — %s: such characters are emitted unescaped, which RFC 8259 forbids and which does not parse back"
                      % (show(n)[:40], why), okdesc="bulk copy behind a complete scan")
     # control characters: \\u00XX
+    if sw is None:
+        return                     # the \\u form was evaluated exactly for every control character in clause (1)
     ufmt = [e for e in es.stmts() if e.node.get("k") == "call" and last(e.node.get("callee", "")) in ("snprintf", "sprintf")]
     r.instance()
     oku = False
@@ -666,6 +1239,68 @@ def r_escape(ctx, r, es, ptable):
         oku = oku and size_ok
     r.expect(oku, es, ufmt[0] if ufmt else None, "control character form", "control characters are not emitted as `\\u` followed by exactly four hex digits of the unsigned character value (the form _parseHex4 decodes)",
              okdesc="control characters → \\u%04x of (unsigned char)c")
+
+
+def appended_pieces(fb, f, outvar, _seen=None):
+    """[(function, element, expression)] for every piece that becomes part of the string `outvar` of f (its initialiser, `+=`, append/push_back/
+    insert/assign), followed into the functions of Json that receive the string by non-const reference (indent / separator helpers)."""
+    _seen = _seen if _seen is not None else set()
+    if (f.name, outvar) in _seen:
+        return []
+    _seen.add((f.name, outvar))
+
+    def is_out(x):
+        x = strip_wrappers(x) if isinstance(x, dict) else None
+        return x is not None and x.get("k") == "var" and x["n"] == outvar
+    out = []
+    for e in f.stmts():
+        n = e.node
+        k = n.get("k")
+        if k == "decl":
+            out += [(f, e, v["init"]) for v in n["vars"] if v["n"] == outvar and isinstance(v.get("init"), dict) and "&" not in (v.get("t") or "")]
+        elif k == "opcall" and n.get("op") in ("+=", "=") and n.get("args") and is_out(n["args"][0]):
+            out.append((f, e, n["args"][1]))
+        elif k == "mcall" and is_out(n.get("obj")) and last(n.get("callee", "")) in ("append", "push_back", "insert", "assign", "replace"):
+            out += [(f, e, a) for a in n.get("args", []) if not a.get("def")]
+        elif k in ("call", "mcall") and any(is_out(a) for a in n.get("args", [])):
+            c = n.get("callee") or ""
+            if c in ("std::move", "std::forward", "std::as_const"):
+                continue
+            i = [j for j, a in enumerate(n["args"]) if is_out(a)][0]
+            gs = [g for g in fb.funcs(c, JF) if g.ok] if c.startswith(JS + "::") else []
+            if len(gs) != 1 or i >= len(gs[0].params) or not gs[0].params[i].get("n"):
+                raise AnalysisBroken("%s hands its output string to %s, which the rule cannot look into" % (last(f.name), c))
+            t = gs[0].params[i].get("t") or ""
+            if "&" in t and "const" not in t:
+                out += appended_pieces(fb, gs[0], gs[0].params[i]["n"], _seen)
+    return out
+
+
+def piece_kind(x):
+    """what a piece appended to serializer output is: "literal", "option" (member of the SerializeOptions parameter), "escaped" (result of
+    _escapeString), "nested" (result of a _serialize* function); None for anything else (a raw string)"""
+    x = strip_views(x)
+    if x is None:
+        return None
+    k = x.get("k")
+    if k in ("str", "char", "int") or (k == "ctor" and x.get("cls") == "std::basic_string" and not [a for a in x.get("args", []) if not a.get("def")]):
+        return "literal"
+    if k == "cond" and isinstance(x.get("t"), dict):
+        ks = {piece_kind(x["t"]), piece_kind(x["f"])}
+        return None if None in ks else ks.pop() if len(ks) == 1 else "literal"
+    if k == "member" and "SerializeOptions" in (strip_casts(x.get("b") or {}).get("t") or ""):
+        return "option"
+    if k in ("call", "mcall") and x.get("callee") == JS + "::_escapeString":
+        return "escaped"
+    if k in ("call", "mcall") and (x.get("callee") or "").startswith(JS + "::_serialize"):
+        return "nested"
+    if (k == "opcall" and x.get("op") == "+") or (k == "call" and x.get("callee") == "std::operator+"):
+        ks = {piece_kind(a) for a in x.get("args", [])}
+        return None if None in ks else ("escaped" if "escaped" in ks else "literal")
+    return None
+
+
+ACCESSORS = ("getBool", "getInt", "getDouble", "getString", "getArray", "getObject", "isNull", "type")      # Json's own typed getters: calls every serializer arm makes and no clause needs to look into
 
 
 def r4(ctx, r):
@@ -690,22 +1325,35 @@ def r4(ctx, r):
     for t, callee in want.items():
         r.instance()
         els = arms.get(t, [])
-        r.expect(any(e.kind == "stmt" and e.node.get("k") in ("mcall", "call") and last(e.node.get("callee", "")) == callee for e in els) and
-                 any(e.kind == "stmt" and e.node.get("k") == "ret" for e in els), ser, None, "%s arm" % t, "the %s arm of _serialize does not return %s(…)" % (t, callee), okdesc="%s → %s" % (t, callee))
+        r.expect(unless_moved(any(e.kind == "stmt" and e.node.get("k") in ("mcall", "call") and last(e.node.get("callee", "")) == callee for e in els) and
+                              any(e.kind == "stmt" and e.node.get("k") == "ret" for e in els), els, ACCESSORS, "%s arm of _serialize" % t), ser, None, "%s arm" % t, "the %s arm of _serialize does not return %s(…)" % (t, callee), okdesc="%s → %s" % (t, callee))
     # Null/Boolean literals
     for t, lits in (("Null", {"null"}), ("Boolean", {"true", "false"})):
         r.instance()
         got = {x.get("v") for e in arms.get(t, []) if e.kind == "stmt" and "root" in e.raw for x in walk(e.node) if x.get("k") == "str"}
-        r.expect(got == lits, ser, None, "%s literal" % t, "the %s arm emits %s instead of %s" % (t, sorted(got), sorted(lits)), okdesc="%s → %s" % (t, "/".join(sorted(lits))))
+        r.expect(unless_moved(got == lits, arms.get(t, []), ACCESSORS, "%s arm of _serialize" % t), ser, None, "%s literal" % t, "the %s arm emits %s instead of %s" % (t, sorted(got), sorted(lits)), okdesc="%s → %s" % (t, "/".join(sorted(lits))))
     # Int: to_string of an integral
     r.instance()
     ints = [e for e in arms.get("Int", []) if e.kind == "stmt" and e.node.get("k") == "call" and last(e.node.get("callee", "")) in ("to_string",)]
-    r.expect(len(ints) == 1 and "long" in (ints[0].node["args"][0].get("t") or strip_casts(ints[0].node["args"][0]).get("t") or "long"), ser, None, "Int arm", "the Int arm does not format through std::to_string(integer)", okdesc="Int → std::to_string(int64)")
-    # object keys and string values pass through the escaper
+    r.expect(unless_moved(len(ints) == 1 and "long" in (ints[0].node["args"][0].get("t") or strip_casts(ints[0].node["args"][0]).get("t") or "long"), arms.get("Int", []), ACCESSORS, "Int arm of _serialize"), ser, None, "Int arm", "the Int arm does not format through std::to_string(integer)", okdesc="Int → std::to_string(int64)")
+    # object keys pass through the escaper.  Decided on what _serializeObject (and every helper it hands its output string to) appends: each
+    # appended piece must be a literal, a SerializeOptions member (the indent), the escaper's result or a nested serialization — so no key (no
+    # string at all) can reach the output raw — and the escaper must be applied to something inside the member loop.
     so = fb.func(JS + "::_serializeObject", file_suffix=JF)
+    outv = out_var_of(so)
+    if outv is None:
+        raise AnalysisBroken("_serializeObject: no single local string is returned")
+    pieces = appended_pieces(fb, so, outv)
+    kinds = [(f_, e, x, piece_kind(x)) for (f_, e, x) in pieces]
+    rawp = [(f_, e, x) for (f_, e, x, k) in kinds if k is None]
+    escd = [(f_, e, x) for (f_, e, x, k) in kinds if k == "escaped" and f_ is so]
+    if len(pieces) < 5:
+        raise AnalysisBroken("_serializeObject: only %d appends to the output recognised (floor 5)" % len(pieces))
     r.instance()
-    keyapps = [e for e in so.stmts() if e.node.get("k") == "opcall" and e.node.get("op") == "+=" and strip_casts(e.node["args"][0]).get("n") == "result" and "keys[" in show(e.node["args"][1]) and "_serialize(" not in show(e.node["args"][1])]
-    r.expect(len(keyapps) >= 1 and all("_escapeString(" in show(e.node["args"][1]) for e in keyapps), so, keyapps[0] if keyapps else None, "object key unescaped", "_serializeObject appends a key without _escapeString", okdesc="object keys escaped")
+    in_loop = [t for t in escd if search(so, t[1], lambda y, t=t: y is t[1], eh=False) is not None and strip_views(t[2]["args"][0]).get("k") != "str"]
+    r.expect(not rawp and len(in_loop) >= 1, rawp[0][0] if rawp else so, rawp[0][1] if rawp else None, "object key unescaped",
+             ("%s appends `%s` to the serialized object, which is neither a literal, an option, _escapeString(…) nor a nested _serialize(…): a key (or other text) reaches the output without escaping"
+              % (last(rawp[0][0].name), show(rawp[0][2])[:50])) if rawp else "_serializeObject appends no _escapeString(key) inside its member loop", okdesc="object keys escaped; %d appended pieces all literal / option / escaped / nested" % len(pieces))
     # Double arm
     darm = arms.get("Double", [])
     dcalls = [e for e in darm if e.kind == "stmt" and e.node.get("k") in ("call", "mcall") and last(e.node.get("callee", "")) not in ("getDouble", "basic_string")]
@@ -727,7 +1375,7 @@ def r4(ctx, r):
     fcalls = [e for e in f.stmts() if e.node.get("k") == "call" and last(e.node.get("callee", "")) in ("snprintf", "sprintf", "to_chars", "to_string")]
     outs = [e for e in f.stmts() if e.node.get("k") == "opcall" and e.node.get("op") == "<<"]
     r.instance()
-    if not r.expect(len(fcalls) == 1 and not outs and last(fcalls[0].node["callee"]) != "to_string", f, (fcalls or [None])[0], "double formatter", "%s formats through %s (need exactly one snprintf/to_chars; std::to_string / operator<< default precision lose digits)"
+    if not r.expect(unless_moved(len(fcalls) == 1 and not outs and last(fcalls[0].node["callee"]) != "to_string", list(f.stmts()), (), "double formatter"), f, (fcalls or [None])[0], "double formatter", "%s formats through %s (need exactly one snprintf/to_chars; std::to_string / operator<< default precision lose digits)"
                     % (last(f.name), [last(e.node["callee"]) for e in fcalls] + (["operator<<"] if outs else [])), okdesc="one formatting call: %s" % (last(fcalls[0].node["callee"]) if fcalls else "")):
         return
     fe = fcalls[0]
@@ -744,7 +1392,7 @@ def r4(ctx, r):
         nan = [b for b in f.blocks.values() if b.cond is not None and any(x.get("k") == "call" and last(x.get("callee", "")) in ("isnan",) for x in walk(b.cond))]
         inf = [b for b in f.blocks.values() if b.cond is not None and any(x.get("k") == "call" and last(x.get("callee", "")) in ("isinf",) for x in walk(b.cond))]
         okf = bool(nan and inf) and all(dominated_by_edge(f, fe, b, 1, eh=False) for b in nan + inf)
-    r.expect(okf, f, fe, "non-finite formatted", "NaN/Infinity can reach the number formatter and be emitted as `nan`/`inf`, which is not JSON", okdesc="formatter behind isfinite()")
+    r.expect(unless_moved(okf, list(f.stmts()), (), "finite test of the double formatter"), f, fe, "non-finite formatted", "NaN/Infinity can reach the number formatter and be emitted as `nan`/`inf`, which is not JSON", okdesc="formatter behind isfinite()")
     if last(fe.node["callee"]) == "to_chars":
         r.instance()
         r.ok("std::to_chars shortest round-trip form")
@@ -772,7 +1420,7 @@ def r4(ctx, r):
                     okp = op in ("<", "<=") and top >= 17
                     inc = [e for e in f.stmts() if e.node.get("k") == "un" and e.node.get("op") in ("++", "pre++", "post++") and strip_casts(e.node["v"]).get("n") == pv]
                     okp = okp and len(inc) == 1
-                r.expect(okp, f, guards[0].elems[-1] if guards and guards[0].elems else fe, "double precision bound", "the precision loop over `%s` does not reach 17 significant digits in steps of one" % pv, okdesc="precision loop reaches 17")
+                r.expect(unless_moved(okp, list(f.stmts()), (), "precision loop of the double formatter"), f, guards[0].elems[-1] if guards and guards[0].elems else fe, "double precision bound", "the precision loop over `%s` does not reach 17 significant digits in steps of one" % pv, okdesc="precision loop reaches 17")
                 # exits: the loop guard's false edge, or the true edge of a strtod(buf) == d test
                 rt = [b for b in f.blocks.values() if b.cond is not None and common.cmp_parts(b.cond) and common.cmp_parts(b.cond)[0] == "==" and any(x.get("k") == "call" and last(x.get("callee", "")) in ("strtod", "stod") for x in walk(b.cond))]
                 r.instance()
@@ -786,7 +1434,7 @@ def r4(ctx, r):
                         dpar = f.params[0]["n"] if f.params else "d"
                         cmpd = strip_casts(common.cmp_parts(rt[0].cond)[2]).get("n") == dpar or strip_casts(common.cmp_parts(rt[0].cond)[1]).get("n") == dpar
                         okx = w is None and same and cmpd
-                r.expect(okx, f, rt[0].elems[-1] if rt and rt[0].elems else fe, "precision loop exit", "the precision loop can be left before 17 digits without a successful `strtod(buf) == d` round-trip test on the formatted buffer",
+                r.expect(unless_moved(okx, list(f.stmts()), (), "precision loop of the double formatter"), f, rt[0].elems[-1] if rt and rt[0].elems else fe, "precision loop exit", "the precision loop can be left before 17 digits without a successful `strtod(buf) == d` round-trip test on the formatted buffer",
                          okdesc="early exit only on strtod(buf) == d")
     # the result re-parses as Double: '.', 'e' or 'E' present, or ".0" appended
     rets = [e for e in f.stmts() if e.node.get("k") == "ret" and "root" in e.raw and not [x for x in walk(e.node) if x.get("k") == "str"]]
@@ -800,7 +1448,7 @@ def r4(ctx, r):
         if cp and lit and set(lit[0]) <= set(".eE") and "." in lit[0] and "e" in lit[0] and "npos" in show(dot[0].cond):
             miss_edge = 0 if cp[0] == "==" else 1      # edge on which none of . e E was found
             okd = all(search(f, fe, lambda x, rr=rr: x is rr, stop=lambda x: x in add, eh=False, edge_ok=lambda b, si: not (b is dot[0] and si != miss_edge)) is None for rr in rets)
-    r.expect(okd, f, rets[0] if rets else None, "double re-parses as Int", "a double whose shortest form has no '.', 'e' or 'E' (e.g. 1e15 → 1000000000000000) is emitted without a marker, so it parses back as Int and `parse(dump(v)) == v` fails on the type",
+    r.expect(unless_moved(okd, list(f.stmts()), (), "'.0' marker of the double formatter"), f, rets[0] if rets else None, "double re-parses as Int", "a double whose shortest form has no '.', 'e' or 'E' (e.g. 1e15 → 1000000000000000) is emitted without a marker, so it parses back as Int and `parse(dump(v)) == v` fails on the type",
              okdesc="integral doubles get '.0'")
 
 
@@ -870,8 +1518,13 @@ def r5(ctx, r):
         else:
             for _ in range(max(1, len(loops))):
                 r.ok("%s: every cycle advances the cursor" % last(f.name))
-    if n < 8:
-        raise AnalysisBroken("only %d loops found in JsonParser (floor 8)" % n)
+    # instance floor.  Counted in loop *sites* — a loop, or a call to a parser method that contains one — because moving k identical loops into one
+    # helper called k times (digit runs → a `skip digits` method) lowers the number of loops without removing any iteration from the parser.
+    looping = {f.name for f in funcs if any(b.term and b.term.get("k") in ("WhileStmt", "ForStmt", "DoStmt", "CXXForRangeStmt") for b in f.blocks.values())}
+    sites = n + sum(1 for f in funcs for e in f.stmts() if e.node.get("k") == "mcall" and e.node.get("callee") in looping)
+    if n < 4 or sites < 20:
+        raise AnalysisBroken("only %d loops / %d loop sites found in JsonParser (floors 4 / 20)" % (n, sites))
+    r.note("%d loops, %d loop sites" % (n, sites))
 
 
 def r7(ctx, r):
@@ -902,6 +1555,8 @@ def r7(ctx, r):
                 got[cv] = els
     r.instance(len(want))
     for cv, callee in sorted(want.items()):
+        if got.get(cv) != callee and got.get(cv) is not None and got.get(cv) not in want.values():
+            raise AnalysisBroken("_parseValue sends values starting with %r to %s, a sub-parser the dispatch table does not know" % (chr(cv), got.get(cv)))
         r.expect(got.get(cv) == callee, pv, None, "value dispatch: %r" % chr(cv), "_parseValue sends a value starting with %r to %s (expected %s): valid texts starting with that character are rejected or mis-decoded" % (chr(cv), got.get(cv), callee),
                  okdesc="%r → %s" % (chr(cv), callee))
     # literals: compared text, compared length and advance agree
@@ -925,13 +1580,13 @@ def r7(ctx, r):
             r.instance()
             got_ = seen.get(lit)
             ok = got_ is not None and got_[0] == len(lit) and got_[1] == len(lit) and (want_v is None or got_[2] == want_v)
-            r.expect(ok, f, None, "literal %s" % lit, "%s handles the literal `%s` as (compared length, advance, value) = %s; expected (%d, %d, %s)" % (fn_, lit, got_, len(lit), len(lit), want_v), okdesc="`%s`: %d compared, %d consumed" % (lit, len(lit), len(lit)))
+            r.expect(unless_moved(ok, list(f.stmts()), (), "literal table of %s" % fn_), f, None, "literal %s" % lit, "%s handles the literal `%s` as (compared length, advance, value) = %s; expected (%d, %d, %s)" % (fn_, lit, got_, len(lit), len(lit), want_v), okdesc="`%s`: %d compared, %d consumed" % (lit, len(lit), len(lit)))
     # separators
     for fn_, chars in (("_parseArray", "[],"), ("_parseObject", "{},:")):
         f = jp(ctx, fn_)
         have = {chr(const_value(x)) for b in f.blocks.values() if b.cond is not None for x in walk(b.cond) if x.get("k") == "char" and const_value(x) is not None and 0 < const_value(x) < 128}
         r.instance()
-        r.expect(set(chars) <= have, f, None, "separators of %s" % fn_, "%s does not test for all of %s (found %s)" % (fn_, " ".join(chars), sorted(have)), okdesc="%s tests %s" % (fn_, " ".join(chars)))
+        r.expect(unless_moved(set(chars) <= have, list(f.stmts()), ("_parseValue", "_skipWhitespace", "_parseString"), "separators of %s" % fn_), f, None, "separators of %s" % fn_, "%s does not test for all of %s (found %s)" % (fn_, " ".join(chars), sorted(have)), okdesc="%s tests %s" % (fn_, " ".join(chars)))
 
 
 def _first_call_from(f, bid):
@@ -1029,7 +1684,8 @@ def key_of_var(n):
 
 def anchors(ctx, r):
     fb = ctx.fb()
-    tab = [(jp(ctx, "_parseValue"), ["depth"]), (jp(ctx, "_parseArray"), ["arr", "depth"]), (jp(ctx, "_parseObject"), ["obj", "depth"]), (jp(ctx, "_parseString"), ["str", "c"]),
+    # (the nesting depth is no longer anchored by name: R2 reads its carrier — parameter or member — off the depthMax comparison)
+    tab = [(jp(ctx, "_parseArray"), ["arr"]), (jp(ctx, "_parseObject"), ["obj"]), (jp(ctx, "_parseString"), ["str", "c"]),
            (fb.func(JS + "::_escapeString", file_suffix=JF), ["c", "result"]), (jp(ctx, "_appendUtf8"), ["cp", "str"])]
     for f, names in tab:
         common.require_names(f, names)
